@@ -197,7 +197,7 @@ impl Debugger {
         // `HALT` and breakpoints should be already handled (above)
         loop {
             #[cfg(lace_verif)]
-            crate::verif::status_loop(state);
+            crate::verif::status_loop(state, &self.breakpoints);
             match &mut self.status {
                 Status::WaitForAction => {
                     // Continue loop until action is given
